@@ -246,6 +246,17 @@ def _extra_conn(ch, ops, d, hier, top):
     live = live_conn_ops(ops, d, hier)
     if not live:
         return None
+    if ch.chance(1, 6):
+        # an instance of a module that has no ports at all, with a stray connection
+        j = ch.pick(live, "portless_at")
+        op = ops[j]
+        if op[4][0] == "s":
+            mid = op[1]
+            pl = 9500 + len(ops)
+            decl = [["module", pl, f"NoPorts{pl}", "proc"], ["sig", pl, "inner", 1, "i", "n"], ["end", pl]]
+            inst = ["inst", mid, f"np{len(ops)}", ["mod", pl], "call", {"en": op[4]}]
+            first_mod = next(k for k, o in enumerate(ops) if o[0] == "module")
+            return ops[:first_mod] + decl + ops[first_mod : j + 1] + [inst] + ops[j + 1 :], f"{'top' if mid == top else 'deep'}:inst:portless"
     # (arrays whose target has bundle ports first, half of the time: only the flattening passes see those)
     arrs = [j for j in live if ops[j][4][0] == "s" and d.mods[ops[j][1]].insts[ops[j][2]]["kind"] == "arr" and any(isinstance(sh, tuple) for sh in d.target_ports(d.mods[ops[j][1]].insts[ops[j][2]]["target"]).values())]
     i = ch.pick(arrs, "extra_arr") if arrs and ch.chance(1, 2) else ch.pick(live, "extra")
